@@ -22,7 +22,7 @@
    argument is ignored by the code (it is overwritten), so it is not part of
    an operation.  Generations are u64 in the code and N here; the model is
    faithful while generations stay below 2^64 - 1. *)
-From CS Require Import Base.Prelude Base.CasProto.
+From CS Require Import Base.Prelude Base.CasProto Model.CasFault.
 From CSGen Require Import Consts.
 
 Record shard : Type := mkShard { sh_gen : N; sh_state : N; sh_data : N }.
@@ -55,6 +55,12 @@ Definition shard_max_retries : nat := N.to_nat Consts.MAX_CAS_RETRIES.
 Definition shard_step := step shard_decide 0 shard_max_retries.
 Definition shard_run := run shard_decide 0 shard_max_retries.
 Definition shard_init (v0 : option shard) (progs : nat -> list sop) : sys shard sop sout :=
+  init_sys v0 0%Z progs.
+
+(* the same machine with injected transport faults (Model/CasFault.v): used by
+   the correspondence harness only, no theorem speaks about it *)
+Definition shard_fstep := fstep shard_decide 0 shard_max_retries.
+Definition shard_finit (v0 : option shard) (progs : nat -> list sop) : sys shard sop (option sout) :=
   init_sys v0 0%Z progs.
 
 (* LocalMetadataClient::update_shard_metadata, following its own control flow *)
